@@ -135,6 +135,8 @@ class Machine:
             return self.global_leaf(v[1], path)
         for p in path:
             if p.startswith('['):
+                if not isinstance(v, (list, tuple)) or int(p[1:-1]) >= len(v):
+                    raise Unsupported('constant %s is indexed at %s beyond its extent' % (gid, p))
                 v = v[int(p[1:-1])]
             elif isinstance(v, dict):
                 if p not in v:
